@@ -4,6 +4,7 @@ import (
 	"fmt"
 	"strconv"
 	"strings"
+	"sync"
 
 	"github.com/mimecast/dtail/internal/io/dlog"
 	"github.com/mimecast/dtail/internal/mapr"
@@ -20,6 +21,8 @@ type Aggregate struct {
 	globalGroup *mapr.GlobalGroupSet
 	// The server we aggregate the data for (logging and debugging purposes only)
 	server string
+	// Protects group: the final Flush may run while the last message is processed.
+	mutex sync.Mutex
 }
 
 // NewAggregate create new client aggregator.
@@ -36,6 +39,9 @@ func NewAggregate(server string, query *mapr.Query,
 
 // Aggregate data from mapr log line into local (and global) group sets.
 func (a *Aggregate) Aggregate(message string) error {
+	a.mutex.Lock()
+	defer a.mutex.Unlock()
+
 	parts := strings.Split(message, protocol.AggregateDelimiter)
 	if len(parts) < 4 {
 		return fmt.Errorf("aggregate message without any real data")
@@ -74,6 +80,19 @@ func (a *Aggregate) Aggregate(message string) error {
 		a.group.InitSet()
 	}
 	return nil
+}
+
+// Flush merges (blocking) whatever is left in the local group into the global
+// group. The non-blocking merge in Aggregate can be refused while the global
+// group is busy, and then no later message may come to carry the data along.
+func (a *Aggregate) Flush() {
+	a.mutex.Lock()
+	defer a.mutex.Unlock()
+
+	if err := a.globalGroup.Merge(a.query, a.group); err != nil {
+		panic(err)
+	}
+	a.group.InitSet()
 }
 
 // Create a map of key-value pairs from a part list such as ["foo=bar",  "bar=baz"].
